@@ -10,7 +10,7 @@ MANIFEST = dict(
           "the check measures three sizes on a geometric ladder and requires the growth exponent of the increments to stay below 1.5 (linear 1.0, n log n about 1.1, quadratic 2.0), attributing a violation to the function whose statements grow fastest. "
           "Model/Cost.v models the position conversion every token goes through — the stage that made tokenizing quadratic on the pinned tree — in its rescanning and its resume-point form with their loop-body counts; proved: both forms return the same line/column for every query list in any order, "
           "one tokenizer run (increasing offsets) costs at most 1 + lines + 2*bytes loop iterations whatever the number of tokens, and the rescanning form costs exactly k + d*k*(k-1)/2 on k queries spaced d apart (quadratic); also restated from the other models: the token loop needs at most |bs|+1 iterations, the statement loops at most |tokens|+1, the extractors visit each node once. "
-          "The model is tied to the code on every run: real toSQLPosition answers for forward, backward and scrambled query lists are compared with the model's, and the measured loop-body executions inside toSQLPosition must respect the proved bound." + ' Recovery work is proved linear (C20_recovery_work_linear: every token touched at most three times with the resume rule of the code; the restart rule is refuted as quadratic). Families include malformed inputs (dangling chains, broken statements, keyword soup), long UNION chains and nested constructs as exponential families (work and allocation per added level).'),
+          "The model is tied to the code on every run: the answers of the real position conversion (toSQLPosition today; found by its role - the method of the tokenizer that turns an offset into a models.Location over the line-start table, which is what the verification hook calls - not by its name) for forward, backward and scrambled query lists are compared with the model's, and the measured loop-body executions inside that function and the helpers it calls must respect the proved bound." + ' Recovery work is proved linear (C20_recovery_work_linear: every token touched at most three times with the resume rule of the code; the restart rule is refuted as quadratic). Families include malformed inputs (dangling chains, broken statements, keyword soup), long UNION chains and nested constructs as exponential families (work and allocation per added level).'),
     note=common.BASE_NOTE + "Statement counts are the work measure (not CPU time); stages other than position conversion are covered by measurement on the family catalogue, not by a theorem; sizes explored are stated in the evidence.",
     design="6/C20")
 
@@ -47,43 +47,20 @@ def hot(rs):
     return top
 
 
-def loop_lines(pkgdir, func):
-    """(file, line range) of a function and the line ranges of the for-loop bodies inside it; the function is looked for
-    in every non-test file of the package (it may be moved between files)"""
-    d = os.path.join(common.REPO, pkgdir)
-    for fn in sorted(os.listdir(d)):
-        if not fn.endswith(".go") or fn.endswith("_test.go"):
-            continue
-        src = open(os.path.join(d, fn), encoding="utf-8", errors="replace").read().split("\n")
-        start = None
-        for i, l in enumerate(src):
-            if re.match(r"^func\s+(\([^)]*\)\s*)?%s\(" % re.escape(func), l):
-                start = i
-                break
-        if start is None:
-            continue
-        depth, end = 0, None
-        for i in range(start, len(src)):
-            depth += src[i].count("{") - src[i].count("}")
-            if depth == 0 and i > start:
-                end = i
-                break
-        if end is None:
-            continue
-        ranges = []
-        i = start
-        while i <= end:
-            if re.match(r"^\s*for\b.*\{\s*$", src[i]):
-                dd, j = 0, i
-                while j <= end:
-                    dd += src[j].count("{") - src[j].count("}")
-                    if dd == 0:
-                        break
-                    j += 1
-                ranges.append((i + 1, j + 1))
-            i += 1
-        return os.path.join(pkgdir, fn), (start + 1, end + 1), ranges
-    return None, None, []
+def position_conversion(static):
+    """the tokenizer's source-position conversion, found by its ROLE by the translator (tools/gotables/poscost.go: the
+    methods of *Tokenizer that take an offset / position, return a models.Location and read the line-start table - which
+    is also what the hook behind `vh locq` calls - plus everything of the package they reach through static calls and
+    closures): ([root names], {file: [(first line, last line)] of these functions}, {file: [(brace line, closing line)] of
+    their loop bodies}, notes).  No function name is written down here: a renamed or split conversion is still found"""
+    pc = (static or {}).get("position_conversion") or {}
+    franges, loops = {}, {}
+    for f in pc.get("funcs") or []:
+        franges.setdefault(f["file"], []).append((f["start"], f["end"]))
+        for a, b in f.get("loops") or []:
+            if (a, b) not in loops.setdefault(f["file"], []):
+                loops[f["file"]].append((a, b))
+    return list(pc.get("roots") or []), franges, loops, list(pc.get("notes") or []), pc
 
 
 def run(tier):
@@ -97,6 +74,7 @@ def run(tier):
             common.stage_harness()
             common.stage_harness(cover=True)
             common.emit_all_gen()
+            static = common.stage_gotables()
             ok_inst, ok_props, _, logs = common.coq_stage(rp, ["theories/Proofs/CostP.vo", "theories/Proofs/LexerP.vo", "theories/Proofs/LoopsP.vo", "theories/Proofs/ExtractP.vo"], "theories/Props/C20.v", theorems)
     except common.StageError as e:
         return common.stage_fail(rp, e)
@@ -140,11 +118,18 @@ def run(tier):
                 rows[-1]["alloc_bytes"] = al
                 cpu = [r["info"].get("cpu_us", 0) for r in rs]
                 rows[-1]["cpu_us"] = cpu
-                if cpu[0] >= 20000 and cpu[2] / cpu[0] > CPU_RATIO_LIMIT:
-                    # timing is noisy: confirm with two more measurements, keep the minimum per size
-                    again = cm.measure_many([(e, f, k) for k in lad for _ in range(2)], timeout=900)
-                    for j, k in enumerate(lad):
-                        cpu[j] = min([cpu[j]] + [r["info"]["cpu_us"] for r in again if r.get("k") == k and "info" in r])
+                if cpu[0] >= 20000 and cpu[2] / cpu[0] > CPU_RATIO_LIMIT and sum(1 for kk in flagged if kk[0] == "cpu") < 8:
+                    # (at most 8 confirmed CPU findings are reported: each confirmation costs sequential measurements)
+                    # timing is noisy, and noise (other processes, the collector) only ever ADDS time: confirm with repeated
+                    # measurements taken ONE AT A TIME (the first pass runs 16 child processes side by side) and keep the
+                    # minimum per size; a second round only when the first still exceeds the limit.  Work that really grows
+                    # quadratically takes 16x for a 4x input in every repetition.
+                    for _round in range(2):
+                        again = cm.measure_many([(e, f, k) for k in lad for _ in range(3)], workers=1, timeout=900)
+                        for j, k in enumerate(lad):
+                            cpu[j] = min([cpu[j]] + [r["info"]["cpu_us"] for r in again if r.get("k") == k and "info" in r])
+                        if not (cpu[0] >= 20000 and cpu[2] / cpu[0] > CPU_RATIO_LIMIT):
+                            break
                     if cpu[0] >= 20000 and cpu[2] / cpu[0] > CPU_RATIO_LIMIT:
                         flagged.setdefault(("cpu", e, f), {"entry": e, "family": f, "ks": lad, "cpu_us": cpu, "ratio": round(cpu[2] / cpu[0], 2),
                                                            "what": "CPU time grows super-linearly (work inside library calls such as string search, copying or regular-expression matching is not visible to the statement counters)", "measure": "cpu"})
@@ -202,32 +187,46 @@ def run(tier):
                      "growth_%s" % re.sub(r"\W+", "_", fn or "_".join(map(str, key))))
     rp.obligation("oracle: growth exponent <= %.1f for %d entry x family ladders (max input %d bytes)" % (EXP_LIMIT, len(rows), maxbytes), n_viol == 0)
 
-    # tie 1: the proved bound on the measured loop-body executions inside toSQLPosition
-    ffile, frange, loops = loop_lines("pkg/sql/tokenizer", "toSQLPosition")
+    # tie 1: the proved bound on the measured loop-body executions inside the position conversion (the function(s) that
+    # play that role, helpers and closures included)
+    roots, franges, loops, pnotes, pc = position_conversion(static)
+    rname = ", ".join(roots) or "position conversion"
     bound_bad = []
-    checked = 0
-    if frange:
+    checked, entered = 0, 0
+    if roots:
         for (e, f, k), r in by.items():
             if e != "tokenize" or "blocks" not in r:
                 continue
             iters = sum(c for (file, line), c in r["blocks"].items()
-                        if file == ffile and any(a < line <= b for a, b in loops))
+                        if any(a < line <= b for a, b in loops.get(file, ())))
+            if any(c > 0 and any(a <= line <= b for a, b in franges.get(file, ())) for (file, line), c in r["blocks"].items()):
+                entered += 1
             nbytes = r["info"]["bytes"]
-            sql_lines = None
             checked += 1
             # lines <= bytes + 1; the theorem's bound with the exact line count needs the input: recompute the family cheaply
             bound = 1 + (nbytes + 1) + 2 * nbytes
             if iters > bound * 3:      # statements per loop body <= 3
-                bound_bad.append({"family": f, "k": k, "loop_statements": iters, "bound": bound})
-    rp.obligation("tie: measured loop-body executions of toSQLPosition within the proved bound (C20_position_work_linear) on %d tokenizer runs" % checked,
-                  frange is not None and not bound_bad and checked > 0, "function toSQLPosition not found" if frange is None else "")
-    if frange is None:
-        rp.violation({"kind": "correspondence", "theorem": "Props.C20.C20_position_work_linear", "detail": "Tokenizer.toSQLPosition no longer exists: the position-conversion model has nothing to be tied to"},
-                     "toSQLPosition_missing", no_input=True)
+                bound_bad.append({"family": f, "k": k, "loop_statements": iters, "bound": bound, "functions": [x["name"] for x in pc.get("funcs") or []]})
+    rp.cov["position_conversion"] = {"roots": roots, "found_by": pc.get("via"), "hook": pc.get("hook"),
+                                     "functions": [{"name": x["name"], "file": x["file"], "lines": [x["start"], x["end"]], "loop_bodies": x["loops"]} for x in pc.get("funcs") or []],
+                                     "tokenizer_runs": checked, "runs_that_executed_it": entered, "notes": pnotes}
+    rp.obligation("tie: measured loop-body executions of the position conversion (%s, found by role) within the proved bound (C20_position_work_linear) on %d tokenizer runs"
+                  % (rname, checked), bool(roots) and not bound_bad and checked > 0 and entered == checked,
+                  "position conversion not found: " + "; ".join(pnotes) if not roots else ("executed in %d of %d tokenizer runs" % (entered, checked) if entered != checked else ""))
+    if not roots:
+        rp.violation({"kind": "correspondence", "theorem": "Props.C20.C20_position_work_linear",
+                      "detail": "no method of *Tokenizer converts an offset into a models.Location over the line-start table any more (and the hook behind `vh locq` calls none): "
+                                "the position-conversion model has nothing to be tied to", "translator_notes": pnotes},
+                     "position_conversion_missing", no_input=True)
+    elif checked > 0 and entered != checked:
+        rp.violation({"kind": "correspondence", "theorem": "Props.C20.C20_position_work_linear", "functions": roots,
+                      "detail": "the function(s) playing the position-conversion role (and answering the hook) ran in only %d of %d tokenizer measurements: "
+                                "tokenizing no longer goes through the conversion the model is tied to" % (entered, checked)},
+                     "position_conversion_not_exercised", no_input=True)
     for b in bound_bad[:2]:
         rp.violation(dict(b, kind="correspondence", entry="tokenize", theorem="Props.C20.C20_position_work_linear",
-                          explanation="toSQLPosition executes more loop iterations than the resume-point model allows: the code no longer has the modelled (linear) form"),
-                     "toSQLPosition_bound_%s" % b["family"])
+                          explanation="the position conversion (%s) executes more loop iterations than the resume-point model allows: the code no longer has the modelled (linear) form" % rname),
+                     "position_conversion_bound_%s" % b["family"])
 
     # tie 2: answers of the real conversion vs the Coq model, forward / backward / scrambled query orders
     cases = []
@@ -258,14 +257,14 @@ def run(tier):
             m = re.search(r"bad\s*=\s*(\[.*?\])", outc, re.S)
             badidx = [int(x) for x in re.findall(r"\d+", m.group(1))] if m else [-1]
         rp.cov["traces_validated_against_model"] = len(cases)
-        rp.obligation("correspondence: real toSQLPosition answers = Coq resume-point model = Coq rescanning model on %d inputs x forward/backward/scrambled query orders" % len(cases),
+        rp.obligation("correspondence: answers of the real position conversion (" + rname + ", asked through the hook) = Coq resume-point model = Coq rescanning model on %d inputs x forward/backward/scrambled query orders" % len(cases),
                       okc and not badidx, (errc or "")[-300:])
         if not okc:
             rp.violation({"kind": "correspondence", "detail": (errc or outc)[-1500:]}, "loc_cases_coq", no_input=True)
         for i in badidx[:2]:
             if i >= 0:
                 rp.violation({"kind": "correspondence", "sql": cases[i]["sql"], "queries": cases[i]["queries"], "answers": outs[i]["answers"],
-                              "theorem": "Props.C20.C20_resume_point_is_rescan is about Model/Cost.v, which no longer reproduces toSQLPosition",
+                              "theorem": "Props.C20.C20_resume_point_is_rescan is about Model/Cost.v, which no longer reproduces the position conversion (" + rname + ")",
                               "explanation": "the line/column the real position conversion reports for these offsets differs from the model (stale resume point or changed conversion)"},
                              "loc_model_mismatch_%d" % i, no_input=True)
     rp.cov["evaluations"] = len(res) + len(ures) + len(cases)
